@@ -288,4 +288,50 @@ example : (invoked [hUnhandled, hHandled, hUnhandled] {}).length = 2 := by decid
 example : (invoked [hStop, hUnhandled] {}).length = 1 := by decide
 example : KeepsRunning hUnhandled := by intro s; simp [hUnhandled]
 
+
+/-! ## every registration counts (no de-duplication, no cross-talk between the phases) -/
+
+theorem registered_after_is_last (t : HookTable) (mn : String) (f : HookFn) (e : HookEntry) (h : t.get mn = some e) :
+    (t.addAfter mn f).get mn = some { e with after := e.after ++ [f] } := by
+  unfold HookTable.addAfter
+  simp only [h]
+  exact get_map_replace mn _ t (by simp [h])
+
+theorem registered_after_first (t : HookTable) (mn : String) (f : HookFn) (h : t.get mn = none) :
+    (t.addAfter mn f).get mn = some { after := [f] } := by
+  unfold HookTable.addAfter
+  simp only [h]
+  unfold HookTable.get at h ⊢
+  have : t.find? (fun x => x.1 == mn) = none := by
+    cases hf : t.find? (fun x => x.1 == mn) with
+    | none => rfl
+    | some x => simp [hf] at h
+  simp [List.find?_append, this]
+
+/-- registration in either phase, whatever the table held: exactly the chosen phase's list grows by `f` at its end -/
+theorem register_appends (t : HookTable) (mn : String) (f : HookFn) :
+    (t.addBefore mn f).get mn =
+      some { before := ((t.get mn).getD {}).before ++ [f], after := ((t.get mn).getD {}).after } ∧
+    (t.addAfter mn f).get mn =
+      some { before := ((t.get mn).getD {}).before, after := ((t.get mn).getD {}).after ++ [f] } := by
+  cases h : t.get mn with
+  | none => exact ⟨by rw [registered_hook_first t mn f h]; rfl, by rw [registered_after_first t mn f h]; rfl⟩
+  | some e => exact ⟨by rw [registered_hook_is_last t mn f e h]; rfl, by rw [registered_after_is_last t mn f e h]; rfl⟩
+
+/-- **The tracer pattern**: the *same* callback registered before and after a mnemonic is in both lists — the second
+    registration is not dropped because the first one exists. -/
+theorem same_callback_both_phases (t : HookTable) (mn : String) (f : HookFn) :
+    ((t.addBefore mn f).addAfter mn f).get mn =
+      some { before := ((t.get mn).getD {}).before ++ [f], after := ((t.get mn).getD {}).after ++ [f] } := by
+  rw [(register_appends (t.addBefore mn f) mn f).2, (register_appends t mn f).1]
+  rfl
+
+/-- … and registered twice for the same phase it is there twice (and, by `invoked_all`, runs twice per instruction
+    unless it short-circuits). -/
+theorem same_callback_twice (t : HookTable) (mn : String) (f : HookFn) :
+    ((t.addBefore mn f).addBefore mn f).get mn =
+      some { before := ((t.get mn).getD {}).before ++ [f, f], after := ((t.get mn).getD {}).after } := by
+  rw [(register_appends (t.addBefore mn f) mn f).1, (register_appends t mn f).1]
+  simp
+
 end Ax.C12
